@@ -193,6 +193,13 @@ impl<'a> Gen<'a> {
                 ps.push(last);
                 self.stats.hit("ring.closed-in-xy-only");
             }
+        } else if self.rng.chance(1, 10) && !ps.is_empty() {
+            // back at the first vertex up to the sign of a zero coordinate: closed (IEEE ==)
+            ps[0].x = 0;
+            let mut last = ps[0];
+            last.x = 0x8000_0000_0000_0000;
+            ps.push(last);
+            self.stats.hit("ring.closed-signed-zero");
         } else if self.rng.chance(1, 8) && !ps.is_empty() {
             // back to within one unit in the last place of the first vertex: NOT closed
             let mut last = ps[0];
